@@ -106,6 +106,11 @@ def build_scenarios(T, base, tier, serial_T=None):
                  lambda b, out: [T["gensquashfs"], "-q", "-b", "4096", "-j", "1", "-c", "gzip", "-F", os.path.join(b, "pack.txt"), "-D", os.path.join(b, "in"),
                                  "-S", os.path.join(b, "sort.txt"), "-A", os.path.join(b, "xattr.txt"), out], "image", packer=True))
 
+    # S2t: --no-tail-packing: the last (partial) block of a file is a data block of its own that carries the end-of-file bookkeeping
+    S.append(Scn("gensquashfs-no-tail-packing", "gensquashfs", T, os.path.join(base, "s2t"), prep_pf,
+                 lambda b, out: [T["gensquashfs"], "-q", "-b", "4096", "-j", "1", "-c", "gzip", "-T", "-F", os.path.join(b, "pack.txt"), "-D", os.path.join(b, "in"), out],
+                 "image", packer=True))
+
     # S2r: same with relative output path and --pack-dir (tool changes its working directory)
     S.append(Scn("gensquashfs-packfile-relative-out", "gensquashfs", T, os.path.join(base, "s2r"), prep_pf,
                  lambda b, out: [T["gensquashfs"], "-q", "-b", "4096", "-j", "1", "-F", os.path.join(b, "pack.txt"), "-D", os.path.join(b, "in"), out],
@@ -118,6 +123,8 @@ def build_scenarios(T, base, tier, serial_T=None):
         open(os.path.join(b, "in.tar.gz"), "wb").write(gzip.compress(t, mtime=0))
     S.append(Scn("tar2sqfs-plain", "tar2sqfs", T, os.path.join(base, "s3"), prep_tar,
                  lambda b, out: [T["tar2sqfs"], "-q", "-b", "4096", "-j", "1", out], "image", packer=True, stdin_file=lambda b: os.path.join(b, "in.tar")))
+    S.append(Scn("tar2sqfs-no-tail-packing", "tar2sqfs", T, os.path.join(base, "s3t"), prep_tar,
+                 lambda b, out: [T["tar2sqfs"], "-q", "-b", "4096", "-j", "1", "-T", out], "image", packer=True, stdin_file=lambda b: os.path.join(b, "in.tar")))
     S.append(Scn("tar2sqfs-gzip", "tar2sqfs", T, os.path.join(base, "s4"), prep_tar,
                  lambda b, out: [T["tar2sqfs"], "-q", "-b", "4096", "-j", "1", "-c", "lz4", out], "image", packer=True, stdin_file=lambda b: os.path.join(b, "in.tar.gz")))
 
